@@ -2192,6 +2192,9 @@ func (h *fsmHandler) loop(ctx context.Context, wg *sync.WaitGroup) {
 		}
 
 		h.callback(msg)
+		if verifEnabled {
+			verifYield("publish", fsm.pConf.ReadOnly().State.NeighborAddress.String())
+		}
 		fsm.state.Store(nextState)
 		oldState = nextState
 	}
